@@ -190,6 +190,9 @@ class C06(Check):
                 if r.get("skipped"):
                     continue
                 rep = {"property": "C06", "flavour": j["flavour"], "args": j["args"]}
+                if not r["ok"] and r.get("timeout"):
+                    stats["timeouts_inconclusive"] = stats.get("timeouts_inconclusive", 0) + 1
+                    continue
                 if not r["ok"]:
                     cls = simdrv.classify_crash(r)
                     stats["crashes"] += 1
